@@ -5,6 +5,8 @@ import (
 	"go/types"
 
 	"golang.org/x/tools/go/ssa"
+
+	"sidecheck/core"
 )
 
 // Scalar abstract evaluator (used by E3/E4 normal-form rules): a loop-free
@@ -21,6 +23,17 @@ type scalarEval struct {
 	// boolean opaque atoms: conditions that are not scalar comparisons (e.g.
 	// error checks) are named by boolAtom; their value comes from env.atoms.
 	boolAtom func(v ssa.Value) (string, bool)
+	// evalLast evaluates a boolean value with the phi values of the last walk.
+	evalLast func(v ssa.Value) (bool, string)
+}
+
+// retBool returns the boolean returned at ret (operand k) in the last walk:
+// a constant, or a comparison / negation / phi over the named quantities.
+func (s *scalarEval) retBool(ret *ssa.Return, k int) (bool, string) {
+	if s.evalLast == nil {
+		return false, "no walk"
+	}
+	return s.evalLast(core.RetOp(ret, k))
 }
 
 type scalarEnv struct {
@@ -76,6 +89,7 @@ func (s *scalarEval) walk(env scalarEnv) (*ssa.Return, []*ssa.BasicBlock, string
 		}
 		return false, "unsupported condition " + v.String()
 	}
+	s.evalLast = valOf
 	for steps := 0; steps < 10000; steps++ {
 		path = append(path, b)
 		var next *ssa.BasicBlock
